@@ -1741,6 +1741,13 @@ func (t *Topic) thisUserSub(sess *Session, pkt *ClientComMessage, asUid types.Ui
 			sess.queueOut(InfoUseOtherReply(pkt, t.name, now))
 			return nil, types.ErrNotFound
 		}
+		if userData.isChan && !asChan && t.cat == types.TopicCatGrp {
+			// A channel reader is trying to access the channel as a normal subscriber: the request
+			// would be applied to the reader's cached record but stored nowhere, and the session
+			// would be attached as a non-channel one. Direct the reader to use the channel name.
+			sess.queueOut(InfoUseOtherReply(pkt, types.GrpToChn(t.name), now))
+			return nil, types.ErrNotFound
+		}
 
 		var ownerChange bool
 
